@@ -15,8 +15,10 @@ BOUNDS = {"symbolic": "volumes and list values (reals), hours in 0..23, active d
           "distinct)", "start_dates": "2024-02-28 22:00 (leap), 2023-02-28 23:00, 2024-12-31 20:00, 2025-01-31 12:00, "
           "2025-06-02..08 (each weekday) 00:00/07:00", "spans": "1 h .. 72 h incl. non-integer days (1.5 day, 30 h, 50 h)",
           "frequency helpers": "daily/weekly/monthly/yearly with 1-2 symbolic hours and 1 symbolic active day",
-          "fluctuation helpers": "linear_growth / sinusoidal / daily_fluct: time line only (values go through numpy "
-          "transcendental kernels, outside the encoding)"}
+          "span units": "hours; also day / week / year / minute on some instances (hours per unit stated by the harness)",
+          "long spans": "62 days (monthly), 15 days (weekly), 4 days across a leap year's end (yearly): concrete hours, symbolic day",
+          "fluctuation helpers": "linear_growth / sinusoidal / daily_fluct / random: time line by the same obligations; values "
+          "compared concretely with an independent closed form (numpy transcendental kernels are outside the encoding)"}
 ASSUMPTIONS = ["start dates and spans are concrete (enumerated family); hours/days/values/volumes are decided by the solver",
                "hours and active days are distinct and inside their documented domain",
                "'one value per hour' = every hour stamp from the start date to start + timespan inclusive"]
@@ -52,11 +54,22 @@ def distinct(ctx, xs):
             ctx.assume(xs[i] != xs[j])
 
 
-def h_frequency(ctx, frequency, start, span_h, n_hours_sym=1, unit="dimensionless", day_sym=True, empty=None):
-    """empty='hours' / 'days': an explicitly empty selection (no matching hour at all: the series is zero everywhere)"""
+SPAN_UNITS = {"hour": 1, "day": 24, "week": 168, "year": 8766, "minute": 1 / 60}   # hours per unit, stated here (not read from pint)
+
+
+def span_q(span_h, span_unit):
+    return (span_h / SPAN_UNITS[span_unit]) * u(span_unit)
+
+
+def h_frequency(ctx, frequency, start, span_h, n_hours_sym=1, unit="dimensionless", day_sym=True, empty=None,
+                span_unit="hour", n_days_sym=1, fixed_hours=None):
+    """empty='hours' / 'days': an explicitly empty selection (no matching hour at all: the series is zero everywhere);
+    span_unit: the time span is written in that unit; fixed_hours: concrete hours (long spans, symbolic day only)"""
     st = STARTS[start]
     vol = ctx.var("volume", lo=0, hi=10 ** 6, nice=(1, 500))
     hours = [ctx.var(f"hour{k}", lo=0, hi=23, integer=True) for k in range(n_hours_sym)] if empty != "hours" else []
+    if fixed_hours is not None:
+        hours = list(fixed_hours)
     distinct(ctx, hours)
     days = None
     if frequency != "daily":
@@ -64,13 +77,14 @@ def h_frequency(ctx, frequency, start, span_h, n_hours_sym=1, unit="dimensionles
         if empty == "days":
             days = []
         elif day_sym:
-            days = [ctx.var("day0", lo=lo, hi=hi, integer=True)]
+            days = [ctx.var(f"day{k}", lo=lo, hi=hi, integer=True) for k in range(n_days_sym)]
+            distinct(ctx, days)
         else:
             days = None
-    out = tb.create_hourly_usage_from_frequency(span_h * u.hour, vol, frequency, active_days=days, hours=hours,
+    out = tb.create_hourly_usage_from_frequency(span_q(span_h, span_unit), vol, frequency, active_days=days, hours=hours,
                                                 start_date=st, pint_unit=u(unit))
     df = out.value
-    lab = f"{frequency} from {start} over {span_h}h"
+    lab = f"{frequency} from {start} over {span_h}h" + ("" if span_unit == "hour" else f" written in {span_unit}")
     check_timeline(ctx, df, st, span_h, unit, lab)
     eff_days = days if days is not None else ([0] if frequency == "weekly" else [1])
     cells = list(df["value"].values._data)
@@ -83,12 +97,12 @@ def h_frequency(ctx, frequency, start, span_h, n_hours_sym=1, unit="dimensionles
     ctx.observe("cell0", cells[0])
 
 
-def h_daily_volume(ctx, start, span_h, n_hours_sym=2, unit="dimensionless"):
+def h_daily_volume(ctx, start, span_h, n_hours_sym=2, unit="dimensionless", span_unit="hour"):
     st = STARTS[start]
     vol = ctx.var("daily_volume", lo=0, hi=10 ** 6, nice=(1, 500))
     hours = [ctx.var(f"hour{k}", lo=0, hi=23, integer=True) for k in range(n_hours_sym)]
     distinct(ctx, hours)
-    out = tb.create_hourly_usage_from_daily_volume_and_list_of_hours(span_h * u.hour, vol, hours, start_date=st,
+    out = tb.create_hourly_usage_from_daily_volume_and_list_of_hours(span_q(span_h, span_unit), vol, hours, start_date=st,
                                                                      pint_unit=u(unit))
     df = out.value
     lab = f"daily volume from {start} over {span_h}h"
@@ -121,27 +135,81 @@ def h_from_list(ctx, start, n, unit):
     ctx.observe("x0", xs[0])
 
 
-def h_fluct(ctx, helper, start, span_h, unit="dimensionless"):
+def h_fluct(ctx, helper, start, span_h, unit="dimensionless", span_unit="hour", a=None, b=None):
+    """a, b: the helper's two numeric parameters (start/end value, amplitude/period, scale/hour of the minimum)"""
     st = STARTS[start]
+    span = span_q(span_h, span_unit)
     if helper == "linear":
-        out = tb.linear_growth_hourly_values(span_h * u.hour, 5, 25, start_date=st, pint_unit=u(unit))
+        a, b = (5, 25) if a is None else (a, b)
+        out = tb.linear_growth_hourly_values(span, a, b, start_date=st, pint_unit=u(unit))
     elif helper == "sin":
-        out = tb.sinusoidal_fluct_hourly_values(span_h * u.hour, 3, 12, start_date=st, pint_unit=u(unit))
+        a, b = (3, 12) if a is None else (a, b)
+        out = tb.sinusoidal_fluct_hourly_values(span, a, b, start_date=st, pint_unit=u(unit))
+    elif helper == "random":
+        a, b = (1, 10) if a is None else (a, b)
+        df = tb.create_random_hourly_usage_df(span, a, b, start_date=st, pint_unit=u(unit))
     else:
-        out = tb.daily_fluct_hourly_values(span_h * u.hour, 0.5, 4, start_date=st, pint_unit=u(unit))
+        a, b = (0.5, 4) if a is None else (a, b)
+        out = tb.daily_fluct_hourly_values(span, a, b, start_date=st, pint_unit=u(unit))
+    lab = f"{helper}({a}, {b}) from {start} over {span_h}h" + ("" if span_unit == "hour" else f" written in {span_unit}")
+    if helper == "random":
+        # like the frequency helpers: every hour stamp from the start date to start + timespan inclusive
+        check_timeline(ctx, df, st, span_h, unit, lab)
+        vals = [float(v) for v in df["value"].values._data]
+        ctx.require(all(a <= v < b and v == int(v) for v in vals), f"{lab}: integers drawn in [min, max)")
+        return
     df = out.value
-    lab = f"{helper} from {start} over {span_h}h"
     # these helpers return int(span in hours) values (no end stamp): one value per hour of [start, start+span)
-    check_timeline(ctx, df, st, None, unit, lab, n=int(span_h))
+    n = int(span_h + 1e-9)
+    check_timeline(ctx, df, st, None, unit, lab, n=n)
     vals = [float(v) for v in df["value"].values._data]
+    close = lambda x, y: abs(x - y) <= 1e-9 * max(1.0, abs(x), abs(y))
     if helper == "linear":
-        ctx.require(abs(vals[0] - 5) < 1e-9 and abs(vals[-1] - 25) < 1e-9, f"{lab}: goes from the start value to the end value")
+        ctx.require(close(vals[0], a) and close(vals[-1], b), f"{lab}: goes from the start value to the end value")
+        ctx.require(all(close(v, a + (b - a) * i / (n - 1)) for i, v in enumerate(vals)) if n > 1 else True,
+                    f"{lab}: equal steps between the start value and the end value")
+    if helper == "sin":
+        ctx.require(all(close(v, a * math.sin(2 * math.pi * i / b)) for i, v in enumerate(vals)),
+                    f"{lab}: amplitude x sin(2 pi hours / period), hour by hour")
     if helper == "daily":
         tmin = [st + i * HOUR for i, v in enumerate(vals) if abs(v - min(vals)) < 1e-9]
-        ctx.require(all(t.hour == 4 for t in tmin), f"{lab}: minimum at the requested hour of the day")
+        if n >= 24:
+            ctx.require(all(t.hour == b for t in tmin), f"{lab}: minimum at the requested hour of the day")
+        ctx.require(all(close(v, 1 - a * math.cos(2 * math.pi * (((st + i * HOUR).hour - b) % 24) / 24))
+                        for i, v in enumerate(vals)),
+                    f"{lab}: 1 - scale x cos(2 pi (hour of day - hour of minimum) / 24), hour by hour")
 
 
-HARNESSES = {"frequency": h_frequency, "daily_volume": h_daily_volume, "from_list": h_from_list, "fluct": h_fluct}
+def h_defaults(ctx, n):
+    """helpers called without start date / unit: documented defaults (2025-01-01 00:00, dimensionless)"""
+    st = datetime(2025, 1, 1)
+    xs = [ctx.var(f"x[{i}]", lo=-1000, hi=10 ** 6, nice=(1, 90)) for i in range(n)]
+    df = tb.create_source_hourly_values_from_list(xs).value
+    check_timeline(ctx, df, st, None, "dimensionless", "source_from_list with defaults", n=n)
+    for i, c in enumerate(df["value"].values._data):
+        ctx.eq(c, xs[i], "source_from_list with defaults: list reproduced element for element")
+    vol = ctx.var("volume", lo=0, hi=10 ** 6, nice=(1, 500))
+    for fr, first_hit in (("daily", 0), ("weekly", 5 * 24), ("monthly", 0), ("yearly", 0)):
+        df = tb.create_hourly_usage_from_frequency(7 * u.day, vol, fr).value
+        lab = f"{fr} with defaults over 7 days"
+        check_timeline(ctx, df, st, 168, "dimensionless", lab)
+        for i, c in enumerate(df["value"].values._data):
+            t = st + i * HOUR
+            hit = t.hour == 0 and (fr == "daily" or (fr == "weekly" and t.weekday() == 0) or
+                                   (fr == "monthly" and t.day == 1) or (fr == "yearly" and t.timetuple().tm_yday == 1))
+            ctx.eq(c, vol if hit else 0, f"{lab}: volume at the default day and hour only")
+    for hp, args in (("linear", (2, 8)), ("sin", (3, 12)), ("daily", (0.5,))):
+        f = {"linear": tb.linear_growth_hourly_values, "sin": tb.sinusoidal_fluct_hourly_values,
+             "daily": tb.daily_fluct_hourly_values}[hp]
+        df = f(30 * u.hour, *args).value
+        check_timeline(ctx, df, st, None, "dimensionless", f"{hp} with defaults", n=30)
+    df = tb.create_random_hourly_usage_df()
+    check_timeline(ctx, df, st, 24, "dimensionless", "random with defaults (1 day)")
+    ctx.observe("x0", xs[0])
+
+
+HARNESSES = {"frequency": h_frequency, "daily_volume": h_daily_volume, "from_list": h_from_list, "fluct": h_fluct,
+             "defaults": h_defaults}
 
 
 def plan(tier, seed):
@@ -170,6 +238,25 @@ def plan(tier, seed):
     for hp in ("linear", "sin", "daily"):
         for st, span in (("leap", 50), ("fri", 24), ("monthend", 37.5)):
             p.append(("fluct", dict(helper=hp, start=st, span_h=span), dict(allow_no_obligation=False)))
+    # time span written in another unit than hours; two symbolic active days; defaults; the random helper
+    p.append(("frequency", dict(frequency="daily", start="tue", span_h=60, span_unit="day")))
+    p.append(("frequency", dict(frequency="weekly", start="fri", span_h=42, span_unit="week"), dict(max_paths=1500)))
+    p.append(("frequency", dict(frequency="monthly", start="monthend", span_h=43.83, span_unit="year"), dict(max_paths=2000)))
+    p.append(("daily_volume", dict(start="sat", span_h=30, span_unit="day", n_hours_sym=2), dict(max_paths=1500)))
+    p.append(("frequency", dict(frequency="weekly", start="sat", span_h=50, n_days_sym=2, fixed_hours=[7, 19]), dict(max_paths=1500)))
+    p.append(("frequency", dict(frequency="monthly", start="leap", span_h=72, n_days_sym=2, fixed_hours=[0, 23]), dict(max_paths=2500)))
+    # long spans (symbolic day, concrete hours): month ends of different lengths, day 366 of a leap / non-leap year
+    p.append(("frequency", dict(frequency="monthly", start="monthend", span_h=24 * 62, fixed_hours=[12]), dict(max_paths=200)))
+    p.append(("frequency", dict(frequency="yearly", start="dec30leap", span_h=24 * 4, fixed_hours=[0, 5]), dict(max_paths=200)))
+    p.append(("frequency", dict(frequency="weekly", start="thu", span_h=24 * 15, fixed_hours=[7]), dict(max_paths=200)))
+    p.append(("defaults", dict(n=3)))
+    for st, span, su in (("leap", 50, "hour"), ("monthend", 36, "day"), ("sun", 1, "hour")):
+        p.append(("fluct", dict(helper="random", start=st, span_h=span, span_unit=su), dict(allow_no_obligation=False)))
+    for hp, a, b, st, span, su in (("linear", 0, 7.5, "tue", 60, "day"), ("linear", 12, 3, "newyear", 2, "hour"),
+                                   ("sin", 2.5, 24, "leap", 84, "week"), ("sin", 1, 7, "sun", 30, "day"),
+                                   ("daily", 1, 0, "thu", 48, "day"), ("daily", 0.25, 23, "newyear", 30, "hour"),
+                                   ("daily", 0.8, 13, "sat", 60, "minute")):
+        p.append(("fluct", dict(helper=hp, start=st, span_h=span, span_unit=su, a=a, b=b), dict(allow_no_obligation=False)))
     if tier == "thorough":
         for fr in ("weekly", "monthly", "yearly"):
             for st in STARTS:
